@@ -184,8 +184,7 @@ def run(ctx):
                 continue
             st["forest_ok_checked"] += 1
             if fok.get((id(r), w)) != 1:
-                ctx.violation("forest_ok(consume=false) fails: a tree of the forest is not a derivation of a "
-                              "prefix of the input", dict(rep, forest=c["nodes"]), key="invalid")
+                failing.append((r, c, "invalid", []))
                 continue
             if not r["plain"] or r["opts"].get("lexdis") is True:
                 continue          # with lexical disambiguation only the chosen tokens are pursued
@@ -247,11 +246,13 @@ def run(ctx):
             bc = bres[bi]["cases"][0]
             if k == "reject":
                 same = bc["status"] == "SyntaxError"
+            elif k == "invalid":
+                same = bc["status"] == "forest" and bc.get("nodes") == c.get("nodes")
             elif btrees is not None and btrees[bi][0] == 1:
                 bcmp = compare_forest(r, c, btrees[bi][1])
                 if bcmp is not None:
                     same = (set(bcmp[0]) == set(ts)) if k == "missing" else bcmp[1]
-        kf = KF_DUP if k == "dup" else KF_LOST
+        kf = KF_DUP if k == "dup" else ("KF-C17-invalid-tree-overlap" if k == "invalid" else KF_LOST)
         if same and kf in kfs:
             st["baseline_same"] += 1
             ctx.known_finding(kf, "%s on input %r of grammar %r (same with the baseline implementation)"
@@ -260,6 +261,9 @@ def run(ctx):
             ctx.violation("GLR raises SyntaxError although a prefix of the input is a sentence "
                           "(derivation certified by tree_ok)",
                           dict(rep, derivation=refparse.shape_to_sx(ts[0]) if ts else None), key="reject")
+        elif k == "invalid":
+            ctx.violation("forest_ok(consume=false) fails: a tree of the forest is not a derivation of a "
+                          "prefix of the input", dict(rep, forest=c["nodes"]), key="invalid")
         elif k == "missing":
             ctx.violation("forest lacks %d derivation(s) of sentence prefixes (certified by tree_ok)" % len(ts),
                           dict(rep, missing=[refparse.shape_to_sx(t) for t in ts[:3]]), key="missing")
